@@ -128,6 +128,8 @@ impl DiskReadScheduler {
                     }
 
                     let _token = self.reader_semaphore.access();
+                    #[cfg(feature = "verif")]
+                    crate::verif::sync::point("load.before_read", 0, handle.table());
                     match self.disk_store.load_column(
                         &handle.key().table,
                         handle.id(),
@@ -179,6 +181,8 @@ impl DiskReadScheduler {
                     handle.name(),
                 );
                 self.load_scheduled.read().unwrap().get(&partition_handle).unwrap().store(false, Ordering::SeqCst);
+                #[cfg(feature = "verif")]
+                crate::verif::sync::point("load.after_mark", 0, handle.table());
                 match result {
                     Some(column) => return Some(column),
                     None => handle.set_empty(),
